@@ -1,4 +1,6 @@
 extra={
+ "C13":{"note":"Trusted: the Go race detector (happens-before based; bounded per-location access history, so a report for a given schedule is reproducible in most but not all fresh processes - non-reproducible reports are dropped and counted), testing/synctest. WaitGroup Add/Wait annotations of the detector are counted separately, not reported. No API-level oracle runs in this configuration.",
+        "technique":"deterministic simulation with fault injection: seeded cooperative scheduler with simulator hand-offs hidden from the Go race detector (runtime.RaceDisable), lock-holder overlap through parked callbacks, race reports as replayable oracle"},
  "C09":{"text_suffix":" B2 is exhaustive for its sequences; B1 is sampling.",
         "note":"Trusted: strace's fault injection, the kernel's rename semantics on tmpfs, Go runtime. Not modelled: power loss (no fsync semantics), errors surfacing only at close(2).",
         "technique":"deterministic simulation with fault injection: seeded interleaving of store operations with crash copies and torn temp files (B1) plus exhaustive SIGKILL/ENOSPC injection at every syscall of a real helper process under strace (B2)"},
